@@ -169,7 +169,7 @@ fn isolated_body(src: &str, filename: &str) -> Shown {
     }
     let mut resolver = Resolver::new(&arena);
     resolver.resolve(root);
-    if resolver.errors.has_errors() {
+    if any_error(&resolver.errors) {
         return Shown { ending: "static-error", text: resolver.errors.render_ansi(src, filename).to_string() };
     }
     let mut non_err = String::new();
@@ -179,7 +179,7 @@ fn isolated_body(src: &str, filename: &str) -> Shown {
     let mut runtime = Runtime::new(&arena, Some(&frame));
     runtime.run_with_analysis(root, &resolver.facts, resolver.optimization_plan.as_ref());
     let err = &runtime.errors;
-    if err.has_errors() {
+    if any_error(err) {
         let printed = runtime.output.iter().map(ToString::to_string).collect::<Vec<_>>().join("\n");
         return Shown { ending: "runtime-error", text: format!("{}{}\n--printed--\n{printed}", non_err, err.render_ansi(src, filename)) };
     }
@@ -201,6 +201,13 @@ fn roomy(plant: &Value) -> bool {
     plant == "many-errors" || plant == "many-warnings" || plant == "resolver-heavy"
 }
 
+/// "Any error diagnostic", decided here from the list itself: the references do not ask the library's
+/// own `has_errors` (round 9: C14-25 made it look at the last diagnostic only, and an oracle that shares
+/// the routine shares the mistake).
+fn any_error(d: &naijascript::diagnostics::Diagnostics) -> bool {
+    d.diagnostics.iter().any(|x| matches!(x.severity, naijascript::diagnostics::Severity::Error))
+}
+
 pub fn predict_cli(src: &str, filename: &str) -> (Vec<u8>, i32, &'static str) {
     let arena = Arena::new(if ROOMY_REFERENCE.with(std::cell::Cell::get) { 4096 * MEBI } else { 200 * MEBI }).expect("arena");
     // (roomy references get a frame arena as large as the CLI's)
@@ -213,7 +220,7 @@ pub fn predict_cli(src: &str, filename: &str) -> (Vec<u8>, i32, &'static str) {
     }
     let mut resolver = Resolver::new(&arena);
     resolver.resolve(root);
-    if resolver.errors.has_errors() {
+    if any_error(&resolver.errors) {
         return (resolver.errors.render_ansi(src, filename).as_bytes().to_vec(), 1, "static-error");
     }
     let mut out: Vec<u8> = vec![];
@@ -229,13 +236,16 @@ pub fn predict_cli(src: &str, filename: &str) -> (Vec<u8>, i32, &'static str) {
     if !err.diagnostics.is_empty() {
         out.extend_from_slice(err.render_ansi(src, filename).as_bytes());
     }
-    if err.has_errors() { (out, 1, "runtime-error") } else { (out, 0, "ok") }
+    if any_error(err) { (out, 1, "runtime-error") } else { (out, 0, "ok") }
 }
 
 /// Statements that make a run end early or produce diagnostics. (text, what it plants)
 fn planted(r: &mut Rng) -> (String, &'static str) {
-    let k = r.below(18);
+    let k = r.below(20);
     match k {
+        // an error the run never trips over, with an analysis warning reported after it
+        18 => ("do zhelper() start return \"a\" minus 1 end".into(), "static"),
+        19 => ("make zunused2 get 1\ndo zhelper2(a) start return zz_undeclared2 end".into(), "static"),
         // several diagnostics from one declaration: the order they are reported in is part of the output
         17 => ("do zparams(aa, bb, cc, dd, aa, bb, cc, dd) start return 1 end".into(), "static"),
         0 => ("make zq1 get \"never closed".into(), "lexical"),
